@@ -17,6 +17,9 @@ use std::{
 
 use free_list::FreeList;
 
+#[cfg(nomt_verif)]
+pub(crate) mod free_list;
+#[cfg(not(nomt_verif))]
 mod free_list;
 
 /// The number of a page
